@@ -421,9 +421,9 @@ def gen_nested(rng):
 
 
 def enc_nested(x, depth):
-    """driver encoding of nested arguments: strings `s<codes>` joined by `|`, groups by `/`, groups of groups by `//`; `_` = empty list"""
+    """driver encoding of nested arguments: strings `s<codes>` joined by `|`, groups by `/`, groups of groups by `//`; `_` / `__` / `___` = the empty list at depth 1 / 2 / 3"""
     if depth == 1: return enc_strs(x) if x else '_'
-    return ('/' * (depth - 1)).join(enc_nested(g, depth - 1) for g in x) if x else '_'
+    return ('/' * (depth - 1)).join(enc_nested(g, depth - 1) for g in x) if x else '_' * depth      # the empty list of each level has its own token
 
 
 def gen_cases(rng, scale, exhaustive=True):
@@ -573,7 +573,7 @@ def corr(ck, scale):
     # audit 2, finding 9: arguments nested 2 / 3 deep (model mvarray2 / mvarray3 = stack + arrange), incl. ragged and empty nestings
     nested = [(c['depth'], c['groups']) for c in NESTED_FIXED]
     nested += [(2, [['01', '1X'], ['--']]), (2, [['01', '1X'], ['--', 'H']]), (2, [[], []]), (2, [['', ''], ['', '']]), (2, [[''], ['']]),
-               (2, [['0'], ['1']]), (3, [[[], []], [[], []]]), (3, [[['01', '1X']], [['--', 'HL'], ['00', '11']]]), (2, [['01'], ['1']])]
+               (2, [['0'], ['1']]), (3, [[[], []], [[], []]]), (2, [[]]), (3, [[[]]]), (3, [[[]], [[]]]), (3, [[], []]), (2, []), (3, []), (3, [[['01', '1X']], [['--', 'HL'], ['00', '11']]]), (2, [['01'], ['1']])]
     for _ in range(60 * scale):
         c = gen_nested(rng)
         g = c['groups']
